@@ -1,5 +1,5 @@
 (* C28 - proofs about the call protocol model (Model/C28_Arity.v). *)
-From Coq Require Import String List Bool Arith Lia.
+From Coq Require Import List Bool Arith NArith Lia.
 From Coq Require Import ZifyBool ZifyNat.
 From Elk Require Import Model.C28_Arity.
 Import ListNotations.
@@ -229,5 +229,14 @@ Lemma all_compatible_spec exc rows :
 Proof.
   unfold all_compatible. intros H x Hx. rewrite forallb_forall in H. specialize (H x Hx).
   unfold row_ok in H. apply orb_true_iff in H. destruct H as [H|H]; [now left|right].
-  apply existsb_exists in H. destruct H as (k & Hk & He). apply String.eqb_eq in He. now subst.
+  apply existsb_exists in H. destruct H as (k & Hk & He). apply N.eqb_eq in He. now subst.
+Qed.
+
+(* the rows `compatible` rejects are, by construction, a sufficient exception list *)
+Lemma all_compatible_incompatible_keys rows : all_compatible (incompatible_keys rows) rows = true.
+Proof.
+  unfold all_compatible. apply forallb_forall. intros x Hx. unfold row_ok.
+  destruct (compatible (row_decl x) (row_rt x)) eqn:Hc; [reflexivity|]. cbn [orb].
+  apply existsb_exists. exists (row_key x). split; [|apply N.eqb_refl].
+  unfold incompatible_keys. apply in_map. apply filter_In. split; [exact Hx|]. now rewrite Hc.
 Qed.
